@@ -111,7 +111,18 @@ def composites():
         D.make('Equal', 'eq', a, q, D.wire('same'))
         D.make('Max2', 'mx', a, q, D.wire('big', 3))
         return None
-    return [('Reg x5 (shared names)', regs), ('Add x5 (shared names)', adds), ('Abs/Neg/Sign', abss), ('BufEnable/Latch/Comparator', misc),
+    def same_inner(D):
+        # blocks of one class whose children carry the same instance names but differ in structure
+        a4, b4, a8, b8 = D.wire('a4', 4), D.wire('b4', 4), D.wire('a8', 8), D.wire('b8', 8)
+        D.make('Max2', 'mx4', a4, b4, D.wire('big4', 4))
+        D.make('Max2', 'mx8', a8, b8, D.wire('big8', 8))
+        D.make('Min2', 'mn4', a4, b4, D.wire('small4', 4))
+        D.make('Min2', 'mn8', a8, b8, D.wire('small8', 8))
+        D.make('ClockDivider', 'div5', 100, 10, D.wire('ck5'))
+        D.make('ClockDivider', 'div6', 120, 10, D.wire('ck6'))
+        D.make('ClockDivider', 'div3', 60, 10, D.wire('ck3'), reset=D.wire('rst'))
+        return None
+    return [('same-named children, different structure', same_inner), ('Reg x5 (shared names)', regs), ('Add x5 (shared names)', adds), ('Abs/Neg/Sign', abss), ('BufEnable/Latch/Comparator', misc),
             ('inner wire named like an outer wire', shadow), ('second clock domain', two_domains), ('nested + fan-out', nested)]
 
 
